@@ -52,7 +52,7 @@ _SAFE_BUILTINS = {
     "frozenset": frozenset,
     "dict": dict,
     "round": round,
-    "print": lambda *a, **k: None,
+    "print": (lambda *a, sep=" ", end="\n", file=None, flush=False: file.write(sep.join(str(x) for x in a) + end) if file is not None and hasattr(file, "write") else None),
     "object": object,
     "map": map,
     "filter": filter,
@@ -523,6 +523,14 @@ class MiniEval:
             env.update(local)
             return MiniEval(env)
 
+        walrus = {t.target.id for t in ast.walk(n) if isinstance(t, ast.NamedExpr) and isinstance(t.target, ast.Name)}
+
+        def export(me):
+            # `:=` inside a generator expression binds in the enclosing scope
+            for w in walrus:
+                if w in me.env:
+                    parent[w] = me.env[w]
+
         def rec(gi, local):
             g = gens[gi]
             it = first if gi == 0 else iter(sub(local).ev(g.iter))
@@ -531,11 +539,16 @@ class MiniEval:
                 binder._bind(g.target, x)
                 loc = binder.env
                 se = sub(loc)
-                if all(se.ev(c) for c in g.ifs):
+                ok = all(se.ev(c) for c in g.ifs)
+                export(se)
+                if ok:
                     if gi + 1 < len(gens):
                         yield from rec(gi + 1, loc)
                     else:
-                        yield sub(loc).ev(n.elt)
+                        el = sub(loc)
+                        v = el.ev(n.elt)
+                        export(el)
+                        yield v
 
         return rec(0, {})
 
